@@ -152,7 +152,9 @@ var hintMisses int
 func (f *fq) settle(pre, hint string, grace time.Duration) string {
 	if hint != "" && !f.broken {
 		deadline := 2500 * time.Millisecond
-		if hintMisses >= 3 {
+		if hintMisses >= 8 { // only on a defective queue: keep the run short, the verdict is already decided
+			deadline = 150 * time.Millisecond
+		} else if hintMisses >= 3 {
 			deadline = 600 * time.Millisecond
 		}
 		end := time.Now().Add(deadline)
@@ -221,7 +223,7 @@ func (f *fq) shutdown() bool {
 }
 
 // dispose lets everything run out so that no goroutine of a finished history keeps spinning or holding memory.
-func (f *fq) dispose() {
+func (f *fq) releaseAll() {
 	f.mu.Lock()
 	f.relAll = true
 	for _, ch := range f.rel {
@@ -232,6 +234,10 @@ func (f *fq) dispose() {
 		}
 	}
 	f.mu.Unlock()
+}
+
+func (f *fq) dispose() {
+	f.releaseAll()
 	end := time.Now().Add(time.Second)
 	for time.Now().Before(end) {
 		f.mu.Lock()
@@ -350,6 +356,29 @@ func (a *forcedArea) Run(line string) string {
 			return "bad-op"
 		}
 		return f.settle("", hint, graceLong)
+	case "end":
+		// release everything (also tasks not yet accepted); when all Submit calls have returned and all tasks have
+		// finished, call Shutdown (if it was not called before)
+		if len(w) != 1 {
+			return "bad-op"
+		}
+		f.releaseAll()
+		end := time.Now().Add(2500 * time.Millisecond)
+		for {
+			f.mu.Lock()
+			done := f.subIssued == f.subDone && len(f.finished) >= f.subIssued
+			f.mu.Unlock()
+			if done || f.broken {
+				break
+			}
+			if time.Now().After(end) {
+				f.broken = true
+				break
+			}
+			time.Sleep(100 * time.Microsecond)
+		}
+		f.shutdown()
+		return f.settle("", hint, graceLong)
 	}
 	return "bad-op"
 }
@@ -460,6 +489,6 @@ func (a *forcedArea) Gen(r *hx.Rng, n int, tier string, emit func(string)) {
 			}
 			out("shut")
 		}
-		out("obs")
+		out("end")
 	}
 }
